@@ -86,7 +86,7 @@ def to_global(s):
 # (SGP: the only country without crop land; MUS: an island state where the feed round can yield less meat than no feed;
 #  URY: a meat exporter where the final feed top-up meets a binding, non-zero feed demand; MNG: herds that live on grass, the
 #  feed round's meat is re-timed; BTN: no feed or biofuel demand at all)
-QUICK_CC = ["ARG", "USA", "IND", "CHN", "NZL", "DJI", "LSO", "EST", "SLV", "ECU", "JPN", "ZAF", "SGP", "MUS", "URY", "MNG", "BTN", "AUS", "WOR"]
+QUICK_CC = ["ARG", "USA", "IND", "CHN", "NZL", "DJI", "LSO", "EST", "SLV", "ECU", "JPN", "ZAF", "SGP", "MUS", "URY", "MNG", "BTN", "AUS", "SWT", "BRN", "WOR"]
 QUICK_PRESETS = ["net_baseline", "net_nuclear_winter", "net_nuclear_resilient", "net_nuclear_resilient_more_area",
                  "ms_worst", "ms_simple_ration", "ms_example_res"]
 
